@@ -384,6 +384,14 @@ def run(rep, facts, tier):
     # has to go through the logged primitives.  Exempt: the undo arms themselves; the rollback of a rejected source, provided the
     # log is cut back on the same paths (its entries go with the code they refer to); a freshly allocated heap cell.
     n_out = 0
+    from .. import inline as _inl0
+    V0 = _inl0.View(fx)
+    Wview = _inl0.view_writes(fx, V0, tracked, W)          # private helpers (a `truncate_reverse_log`, a `build_rollback`) count where they are called
+    # functions that cut the log back, directly or through a private helper (`truncate_reverse_log(len)`)
+    cutters = {fn for fn, ws in W.items() if any(w['field'][0] == 'reverse_log' and w['how'].startswith('call:shrink:truncate') for w in ws)}
+    for _ in range(3):
+        cutters |= {fn for fn in fx.fns if fn not in reach and any(callee_of(t) in cutters for _, t in fx.fns[fn].calls())
+                    and not any(is_machine(w) for w in W.get(fn, []))}
     for fn, ws in sorted(W.items()):
         if fn in reach or fn == rc.name or fn not in fx.fns:
             continue
@@ -392,6 +400,7 @@ def run(rep, facts, tier):
         if cuts:
             # the log is an Option: the place where it is opened for writing stands for the cut (nothing to cut when recording is off)
             cuts |= {ev['bb'] for ev in awrite.field_events(fx, f, {'state::State': {'reverse_log'}}) if ev['mut']}
+        cuts |= {bb for bb, t in f.calls() if callee_of(t) in cutters}
         bad = []
         for w in ws:
             if not is_machine(w):
@@ -463,7 +472,7 @@ def run(rep, facts, tier):
                 'arm writes %s and calls recording primitives %s' % (fields_, prim_calls), rc.name, rc.at(tgt))
 
     check_rnext(rep, fx, arms, arm_writes)
-    check_log_retention(rep, fx, W)
+    check_log_retention(rep, fx, Wview, V0)
     from .. import inline
     V = inline.View(fx)
     farv = V('state::State::fetch_and_run')     # helpers shared by several arms (unnamed in any rule) are looked through
@@ -520,7 +529,7 @@ def check_rnext(rep, fx, arms, arm_writes):
             'rnext does not push the boundary SetIp back', rn.name, rn.j['span'], nontrivial=False)
 
 
-def check_log_retention(rep, fx, W):
+def check_log_retention(rep, fx, W, V=None):
     """the log keeps every entry until rnext consumes it: besides the push, State.reverse_log is changed only by the
     pop that feeds rnext and by switching recording on/off as a whole"""
     pops = logfx.poppers(fx, W)
@@ -541,11 +550,11 @@ def check_log_retention(rep, fx, W):
                         '%s pops the reverse log outside rnext (callers: %s): recorded steps disappear without being undone' % (short(fn), sorted(callers)),
                         fn, w['at'], nontrivial=False)
             elif fn == 'state::State::context_close' and how.startswith('call:shrink:truncate') and \
-                    '.ctx.' in ' '.join(expr_str(fx.fns[fn].expr_of_operand(a), -12) for a in w['term']['args'][1:]):
+                    '.ctx.' in ' '.join(expr_str((V(fn) if V is not None else fx.fns[fn]).expr_of_operand(a), -12) for a in w['term']['args'][1:]):
                 rep.add('C02.R3', key, True, 'entries logged by a build-time (meta) evaluation are dropped with the code they refer to', fn, w['at'],
                         nontrivial=False)
             elif how.startswith('call:shrink:truncate') and any(isinstance(x, tuple) and x[0] == 'arg' and x[1] >= 2 for a_ in w['term']['args'][1:]
-                                                                for x in expr_walk(fx.fns[fn].expr_of_operand(a_))) \
+                                                                for x in expr_walk((V(fn) if V is not None else fx.fns[fn]).expr_of_operand(a_))) \
                     and any(w2['field'][0] == 'code' and w2['how'].startswith('call:shrink') for w2 in W.get(fn, [])):
                 rep.add('C02.R3', key, True, 'the rollback of a rejected source cuts the log back to the mark taken at its entry, together with the code '
                         'the entries refer to', fn, w['at'], nontrivial=False)
